@@ -46,7 +46,7 @@ def kindToStr : Kind → String | .int => "int" | .float => "float" | .complex =
 
 def errName : Err → String
   | .value => "ValueError" | .type => "TypeError" | .index => "IndexError"
-  | .zeroDiv => "ZeroDivisionError"
+  | .zeroDiv => "ZeroDivisionError" | .attribute => "AttributeError"
 
 def ndinfoOfJson (j : Json) : Except String (Option NdInfo) :=
   match j with
@@ -171,6 +171,13 @@ def opOfJson (j : Json) : Except String Op := do
   | "resample" =>
       pure (.resample (← rsOfJson (← field j "arg")) (← axesOfJson (fieldD j "axes" Json.null)) ip)
   | "getitem" => pure (.getitem (← (← arrField j "ix").toList.mapM itemOfJson))
+  | "dp" =>
+      let k ← strField j "kind"
+      pure (.dpReduce (match k with | "max" => .max | "median" => .median | _ => .mean))
+  | "vimg" =>
+      let (sh, dat, _) ← arrayOfJson (← field j "mask")
+      pure (.virtualImage sh (dat.getD []))
+  | "frame" => pure (.frame (← natField j "k"))
   | _ => throw s!"unknown op {op}"
 
 def stJson (st : St) : Json := match st.cur with | none => Json.null | some d => dsToJson d
